@@ -83,6 +83,17 @@ def run(cap):
     if mesh.user_options.curvature_smoothing is not None:
         return out
     Bvec, A, L = make_field(cap)
+    kink = None
+    if cap.fam is not None and cap.fam.fs != 0:
+        from .c03 import transform
+
+        pf_, _ = transform(cap.spec)
+        pa_, pb_ = pf_ * cap.fam.psi_axis, pf_ * cap.fam.psi_bdry
+        pmax = cap.fam.pn_max
+
+        def kink(p):
+            return (p - pa_) / (pb_ - pa_) - pmax
+
     W = {}
 
     def upd(key, err, scale, region, loc):
@@ -111,7 +122,8 @@ def run(cap):
             gR, gZ = oracles.fd_grad(psi, R, Z, h=1e-4 * L)
             code = {k: getattr(getattr(region, "curl_bOverB_" + k), loc) for k in "xyz"}
             cx = cR * gR + cZ * gZ
-            upd("curl_bOverB_x." + loc, np.abs(code["x"] - cx), scales["x"], region, loc)
+            selx = np.ones(R.shape, bool) if kink is None else (np.abs(kink(psi(R, Z))) > 0.03)
+            upd("curl_bOverB_x." + loc, np.where(selx, np.abs(code["x"] - cx), 0.0), scales["x"], region, loc)
             BR, BZ = gZ / R, -gR / R
             bp = np.hypot(BR, BZ)
             sgn = np.sign(Bp)
@@ -147,9 +159,21 @@ def run(cap):
                     rot["n"] += int(m.sum())
             cy = cR * gyR + cZ * gyZ
             czz = cz / R - Bt * hy / (Bp * R) * cy
+            if not orth:
+                # the same projection with grad(y) as the code's formula builds it: if the code's
+                # values agree with THIS, the mismatch with the true component is explained by the
+                # grad(y) rotation defect and by nothing else
+                cy_c = cR * cgR + cZ * cgZ
+                cz_c = cz / R - Bt * hy / (Bp * R) * cy_c
+                upd("nonorth-as-coded:curl_bOverB_y." + loc, np.abs(code["y"] - cy_c), scales["y"], region, loc)
+                upd("nonorth-as-coded:curl_bOverB_z." + loc, np.abs(code["z"] - cz_c), scales["z"], region, loc)
             sel = np.ones(R.shape, bool)
-            upd("curl_bOverB_y." + loc, np.abs(code["y"] - cy)[sel], scales["y"], region, loc)
-            upd("curl_bOverB_z." + loc, np.abs(code["z"] - czz)[sel], scales["z"], region, loc)
+            if kink is not None:
+                # the tabulated fpol ends (constant continuation) inside the grid: its derivative
+                # jumps there and the oracle's finite differences straddle the kink
+                sel = np.abs(kink(psi(R, Z))) > 0.03
+            upd("curl_bOverB_y." + loc, np.where(sel, np.abs(code["y"] - cy), 0.0), scales["y"], region, loc)
+            upd("curl_bOverB_z." + loc, np.where(sel, np.abs(code["z"] - czz), 0.0), scales["z"], region, loc)
             for k in "xyz":
                 b = getattr(getattr(region, "bxcv" + k), loc)
                 upd("bxcv=Bxy/2*curl." + loc, np.abs(b - 0.5 * Bx * code[k]) / (np.abs(b) + 1e-300) if np.any(b != 0) else np.abs(b), 1.0, region, loc)
@@ -159,6 +183,9 @@ def run(cap):
             out.append(rec(key, cls, w["n"], w["worst"], 1e-13, where=w["where"]))
             continue
         comp = key.split("_")[-1][0]
+        if key.startswith("nonorth-as-coded"):
+            out.append(rec(key, cls, w["n"], w["worst"] / w["scale"], 1e-3, where=w["where"], note="code's values vs the oracle's curl projected on grad(y) as the code's formula builds it"))
+            continue
         if xy_form:
             # finite-difference formulation: agreement to the discretisation error of the grid
             med = float(np.median(errs)) / w["scale"]
@@ -169,6 +196,10 @@ def run(cap):
         else:
             thr = 1e-3 if orth else 0.05
         sig = None
+        if (not orth) and comp in "yz" and w["worst"] / w["scale"] > thr:
+            ac = W.get("nonorth-as-coded:" + key)
+            if ac is not None and ac["worst"] / ac["scale"] <= 1e-3:
+                sig = "explained by the grad(y) rotation: equals the projection on grad(y) as coded"
         out.append(rec(key, cls, w["n"], w["worst"] / w["scale"], thr, where=w["where"], sig=sig, note="max |difference| relative to the field-wide scale"))
     if rot["n"]:
         out.append(rec("nonorth: grad(y) implied by the code's formula is perpendicular to e_x", cls, rot["n"], rot["code"], 0.1, sig="grad(y) rotated by -beta instead of +beta (|cos angle(grad y, e_x)| up to %.2f)" % rot["code"] if rot["code"] > 0.1 else None))
